@@ -6,6 +6,7 @@ import (
 	"io"
 	"os"
 	"os/exec"
+	"sort"
 	"strings"
 	"syscall"
 	"time"
@@ -26,6 +27,8 @@ type Solver struct {
 	Errors int
 	log    *os.File
 	Res    map[string]int
+	cache  map[string]string
+	CacheHits int
 }
 
 // SolverSpec: "cvc5", "z3", "z3-new", "cvc5-int" (cvc5 with --solve-bv-as-int=sum).
@@ -43,7 +46,7 @@ func NewSolver(spec string, timeoutMs int) *Solver {
 	default:
 		argv = strings.Fields(spec)
 	}
-	s := &Solver{Name: spec, argv: argv, Res: map[string]int{}}
+	s := &Solver{Name: spec, argv: argv, Res: map[string]int{}, cache: map[string]string{}}
 	s.start()
 	return s
 }
@@ -166,6 +169,108 @@ func (s *Solver) sync(pc []*Term) {
 		s.send(fmt.Sprintf("(assert %s)", pc[i]))
 		s.stack = append(s.stack, pc[i])
 	}
+}
+
+// CheckSliced decides pc ∧ extra using only the constraints of pc that share variables,
+// transitively, with extra (constraint independence: the omitted constraints are over disjoint
+// variables and, being part of a satisfiable path condition, are satisfiable on their own, so the
+// verdict is exact). Verdicts are cached per (slice, extra) — slices recur across paths.
+func (s *Solver) CheckSliced(pc []*Term, extra []*Term) string {
+	need := map[int]bool{}
+	for _, e := range extra {
+		for _, v := range varsOf(e) {
+			need[v] = true
+		}
+	}
+	included := make([]bool, len(pc))
+	var slice []*Term
+	for changed := true; changed; {
+		changed = false
+		for i, c := range pc {
+			if included[i] {
+				continue
+			}
+			vs := varsOf(c)
+			hit := false
+			for _, v := range vs {
+				if need[v] {
+					hit = true
+					break
+				}
+			}
+			if hit {
+				included[i] = true
+				slice = append(slice, c)
+				for _, v := range vs {
+					if !need[v] {
+						need[v] = true
+						changed = true
+					}
+				}
+			}
+		}
+	}
+	ids := make([]int, 0, len(slice)+len(extra)+1)
+	for _, c := range slice {
+		ids = append(ids, c.id)
+	}
+	sort.Ints(ids)
+	var kb strings.Builder
+	for _, id := range ids {
+		fmt.Fprintf(&kb, "%d,", id)
+	}
+	kb.WriteByte('|')
+	for _, e := range extra {
+		fmt.Fprintf(&kb, "%d,", e.id)
+	}
+	key := kb.String()
+	if r, ok := s.cache[key]; ok {
+		s.CacheHits++
+		return r
+	}
+	t0 := time.Now()
+	s.Calls++
+	s.syncDefs()
+	if len(s.stack) > 0 {
+		s.send(fmt.Sprintf("(pop %d)", len(s.stack)))
+		s.stack = nil
+	}
+	s.send("(push 1)")
+	for _, c := range slice {
+		s.send(fmt.Sprintf("(assert %s)", c))
+	}
+	for _, e := range extra {
+		s.send(fmt.Sprintf("(assert %s)", e))
+	}
+	s.send("(check-sat)")
+	r := s.line()
+	for r == "" {
+		r = s.line()
+	}
+	s.send("(pop 1)")
+	if strings.HasPrefix(r, "(error") {
+		s.Errors++
+		if os.Getenv("ZX_DEBUG") != "" {
+			fmt.Fprintln(os.Stderr, "solver error:", r)
+		}
+		r = "unknown"
+	}
+	if r != "sat" && r != "unsat" {
+		r = "unknown"
+	}
+	s.Res[r]++
+	if el := time.Since(t0); el > 300*time.Millisecond && os.Getenv("ZX_SLOW") != "" {
+		fmt.Fprintf(os.Stderr, "SLOW %v %s slice=%d/%d extra=", el.Round(time.Millisecond), r, len(slice), len(pc))
+		for _, a := range extra {
+			fmt.Fprintf(os.Stderr, "%s ", describe(a, 3))
+		}
+		fmt.Fprintln(os.Stderr)
+	}
+	s.Time += time.Since(t0)
+	if r != "unknown" {
+		s.cache[key] = r
+	}
+	return r
 }
 
 // Check asks for satisfiability of pc ∧ extra; with get != nil and a sat answer the values of
